@@ -98,7 +98,7 @@ def _z3_value(term, zvars, s, asg):
     return r.as_long()
 
 
-def correspond(ctx):
+def _correspond(ctx):
     import z3
     from cspuz.backend import z3 as zb
     from cspuz.expr import BoolVar
@@ -332,3 +332,10 @@ def replay(ctx, data):
         if asg not in models:
             return Finding("find_answer:replay", f"sol {asg} is not a model", data)
     return None
+
+
+def correspond(ctx):
+    try:
+        _correspond(ctx)
+    finally:
+        dslgen.take_decl_failures(ctx, "C01")
